@@ -3,7 +3,7 @@
    optimized winnability oracle used by the gonality code exact (C01); it is discharged by Link/Termination.v when present. *)
 From Coq Require Import ZArith List Bool.
 Import ListNotations.
-From CF Require Import ZSum ListAux Defs Core RankLink GonLink.
+From CF Require Import ZSum ListAux Defs Core RankLink GonLink Termination.
 Open Scope Z_scope.
 
 (* a single game: exactly the winnability of the placement after the opponent removes one chip at v *)
@@ -37,6 +37,18 @@ Theorem C04_per_sink : forall g, wfb g = true -> (0 < nv g)%nat -> terminates g 
   (k = Datatypes.S maxg /\ S = [] /\ forall j P, (1 <= j <= maxg)%nat -> ~ good j P).
 Proof. exact per_sink_spec. Qed.
 Print Assumptions C04_per_sink.
+
+(* the hypothesis `terminates g` holds on every connected multigraph (Link/Termination.v), so the statements above are unconditional there *)
+Theorem C04_terminates_on_connected : forall g, wfb g = true -> connected_b g = true -> (0 < nv g)%nat -> terminates g.
+Proof. exact connected_terminates. Qed.
+Print Assumptions C04_terminates_on_connected.
+Theorem C04_gonality_connected : forall g, wfb g = true -> connected_b g = true -> (0 < nv g)%nat -> forall fuel maxg fs k l,
+  compute_gonality fuel g maxg fs = Done (k, l) ->
+  (k = -1 /\ l = [] /\ forall j, (1 <= j <= maxg)%nat -> ~ exists D, effective (Vg g) D /\ deg (Vg g) D = Z.of_nat j /\ rank_ge (Vg g) (mult g) D 1) \/
+  (exists j, k = Z.of_nat j /\ (1 <= j <= maxg)%nat /\ is_gonality (Vg g) (mult g) j /\ l <> [] /\ (length l <= if fs then 5 else 1)%nat /\
+     forall P, In P l -> length P = nv g /\ (forall x, In x P -> 0 <= x) /\ lsum P = Z.of_nat j /\ rank_ge (Vg g) (mult g) (nthZ P) 1).
+Proof. intros g Hwf Hc Hn. apply compute_gonality_spec; auto. now apply connected_terminates. Qed.
+Print Assumptions C04_gonality_connected.
 
 Example C04_nonvacuous : let K4 := [[0;1;1;1];[1;0;1;1];[1;1;0;1];[1;1;1;0]] in
   compute_gonality 200 K4 4 false = Done (3, [[3;0;0;0]]) /\ compute_gonality 200 K4 2 true = Done (-1, []) /\
